@@ -123,13 +123,14 @@ CHECKS = {
              "accepted the output is ASCII without NUL, CR/LF only as CRLF, lines within 998), roundtrip_identity, roundtrip_base64 (a "
              "reader ignoring line breaks recovers the octets: proved through a base64 inverse and chunking lemmas), "
              "roundtrip_quoted_printable (an RFC 2045 6.7 reader gives back every content: proved through an item-level semantics of the "
-             "encoder's line buffer, soft breaks and trailing-blank rule), refusal_matrix. The line rules of the quoted-printable output "
-             "(at most 76 characters, no bare trailing blank) are not proved; encodedOk is applied to every real encoder output. "
+             "encoder's line buffer, soft breaks and trailing-blank rule), quoted_printable_lines and base64_lines (ASCII, CR/LF only as "
+             "CRLF, at most 76 characters per line soft breaks included, no bare trailing blank: a width invariant over the line buffer), "
+             "refusal_matrix. encodedOk is also applied to every real encoder output. "
              "Correspondence: exhaustive strings over a 9-symbol alphabet x String/Vec<u8> x 6 requested encodings, line lengths around "
              "76 and 998, escape ratios around 1/3, sizes to 64 KiB / 1 MiB, through Body and SinglePart.",
         design_ref="DESIGN.md 5 C10",
         note="Trusted: Lean kernel; axioms propext/Quot.sound/Classical.choice; Spec/BodyDec.lean as the reading of RFC 2045 6.7/6.8; model + harness. "
-             "Not yet proved: qp_lines (checked on real outputs only).",
+             "Every clause of the statement is a theorem about the model.",
         technique="Lean 4 proof (invariants over the chooser / CRLF conversion / base64 chunking) + exhaustive/sampled correspondence with independent decoders"),
     "C02": dict(
         category="proof",
@@ -148,16 +149,21 @@ CHECKS = {
         technique="Lean 4 proof (writer invariant through folding and RFC 2047 encoding; reader lemma by induction) + correspondence with an RFC 5322 reader on real output"),
     "C12": dict(
         category="proof",
-        text="Lean theorems: encoded_word_roundtrip (every encoded-word the encoder can emit has the =?utf-8?b?...?= shape, at most 75 "
-             "characters, and decodes to exactly its word: base64 inverse proved), word_room_le_45, together with C02.value_wf for the "
-             "folding. The full statement decode(encodeValue n raw) = raw is recorded in Props/C12.lean and not proved yet: for it the "
-             "tie is the correspondence check, which unfolds and RFC 2047-decodes every real encoded value (names of every length, every "
-             "alignment of 1-4 byte characters against the fold column and the base64 groups, space/tab runs, literal encoded-word "
-             "look-alikes, up to 64 KiB) and requires the input back. Display names and RFC 2231 file names are checked under C17's ops.",
+        text="Lean theorems: unstructured_roundtrip (for every text - every Rust string - and every header-name length, an RFC 5322 + RFC "
+             "2047 reader (unfold, split at linear white space, decode =?utf-8?b?...?= tokens of at most 75 characters, drop white space "
+             "between adjacent encoded-words) applied to the encoded value gives back exactly the text, inner and trailing spaces "
+             "included; proved through a reader-side theorem on chains of literal segments and encoded-words, a writer-side theorem that "
+             "rfc2047::encode writes encoded-words carrying 1..45 octets each, one space apart after unfolding, and an invariant over the "
+             "loop of HeaderValueEncoder::format), encoded_word_roundtrip, word_room_le_45, together with C02.value_wf for the folding. "
+             "The correspondence check ties the encoder model to HeaderValue::new octet for octet and applies the same reader to every "
+             "real encoded value (names of every length, every alignment of 1-4 byte characters against the fold column and the base64 "
+             "groups, space/tab runs, literal encoded-word look-alikes, up to 64 KiB). Display names and RFC 2231 file names are decided "
+             "by readers on real output (mbox / typed ops), not by theorems.",
         design_ref="DESIGN.md 5 C12",
-        note="Trusted: Lean kernel; axioms propext/Quot.sound/Classical.choice; Spec/Rfc2047Dec.lean as the reading of RFC 2047; model + harness. "
-             "Not yet proved: unstructured_roundtrip (checked on real outputs only).",
-        technique="Lean 4 proof (encoded-word validity, base64 inverse) + correspondence with an independent RFC 2047 reader on real output"),
+        note="Trusted: Lean kernel; axioms propext/Quot.sound/Classical.choice; Spec/Rfc2047Dec.lean as the reading of RFC 2047 / RFC 5322 2.2.3; "
+             "the hypothesis that a Rust string has no four UTF-8 continuation octets in a row; model + harness. Structured fields (display "
+             "names, RFC 2231 parameters) are checked on real output only.",
+        technique="Lean 4 proof (reader o encoder = identity for all texts: invariant over the encoder's loop, reader-side chain theorem) + correspondence with the same RFC 2047 reader on real output"),
     "C17": dict(
         category="proof",
         text="Lean theorems on the header map (get_after_set under any letter case, one_entry_per_name, name_case_insensitive) and on the Date "
